@@ -502,7 +502,9 @@ def run_contract(c, tier="quick", keep=False):
 
 def _cbmc(tmo, flags, wd, trace, gb="b.gb"):
     """deciding run: plain text UI (no traces: a trace through a havocked slice of symbolic size can be gigabytes); trace run: JSON"""
-    return subprocess.run(["bash", "-c", "ulimit -v 12000000; exec timeout %d cbmc %s %s %s" % (tmo, " ".join(flags), "--json-ui --trace" if trace else "", os.path.join(wd, gb))],
+    # TMPDIR: cbmc writes the CNF for an external SAT solver to a temporary file and leaves it behind when it is stopped by the timeout;
+    # inside the contract's work directory it is removed with it (never under /tmp)
+    return subprocess.run(["bash", "-c", "ulimit -v 12000000; export TMPDIR=%s; exec timeout %d cbmc %s %s %s" % (wd, tmo, " ".join(flags), "--json-ui --trace" if trace else "", os.path.join(wd, gb))],
                           stdout=subprocess.PIPE, stderr=subprocess.PIPE, text=True, errors="replace")
 
 
